@@ -191,6 +191,40 @@ def call(ex, f, args, kw, st, node=None):
         if h:
             return h(v, st)
         raise OutsideSubset('reversed')
+    if f is sum and len(args) == 1:
+        # sum over a sequence / generator expression with known elements (ints)
+        v = args[0]
+        if isinstance(v, Opaque) and v.name == 'genexp':
+            node = v.data[0]
+            if len(node.generators) == 1 and not node.generators[0].ifs and isinstance(node.generators[0].target, ast.Name):
+                g = node.generators[0]
+                rr = ex.eval(g.iter, st)
+                if len(rr) == 1:
+                    seq = _concrete_seq(ex, rr[0][1], rr[0][0])
+                    if seq is not None:
+                        cur = rr[0][0]
+                        saved = cur.env.get(g.target.id, UNBOUND)
+                        acc = z3.IntVal(0)
+                        for x in seq:
+                            cur.env[g.target.id] = x
+                            r1 = ex.eval(node.elt, cur)
+                            if len(r1) != 1:
+                                raise OutsideSubset('sum: forking element')
+                            cur = r1[0][0]
+                            acc = acc + ex.z_int(r1[0][1])
+                        if saved is UNBOUND:
+                            cur.env.pop(g.target.id, None)
+                        else:
+                            cur.env[g.target.id] = saved
+                        return [(cur, SInt(z3.simplify(acc)))]
+            raise OutsideSubset('sum over an unknown generator')
+        seq = _concrete_seq(ex, v, st)
+        if seq is None:
+            raise OutsideSubset('sum of an unknown sequence')
+        acc = z3.IntVal(0)
+        for x in seq:
+            acc = acc + ex.z_int(x)
+        return [(st, SInt(z3.simplify(acc)))]
     if f is sum or f is sorted or f is zip:
         raise OutsideSubset(f.__name__)
     # itertools / collections used by utils.consume
@@ -341,6 +375,11 @@ def _concrete_seq(ex, v, st):
 
 def py_next(ex, args, st):
     it = args[0]
+    if isinstance(it, Rec) and it.kind == 'aseq':
+        # next() on a generator modelled as an abstract sequence: it becomes an iterator positioned at its start
+        o = st.objs[it.oid]
+        o.setdefault('K', 0)
+        it = Rec(it.oid, 'seq_iter')
     if isinstance(it, Rec) and it.kind in ('enum_iter', 'seq_iter'):
         o = st.objs[it.oid]
         res = []
